@@ -371,6 +371,64 @@ fn run_filter<F>(
     }
 }
 
+/// key type `&[u32]` (a slice of multi-byte elements): members and probes share their first
+/// elements, hence the first bytes, and differ in later ones
+struct KWords {
+    kind: usize,
+    v: Vec<Vec<u32>>,
+    /// probes generated on demand live here (boxed, never removed: references stay valid)
+    arena: std::cell::RefCell<Vec<Box<[u32]>>>,
+}
+impl KWords {
+    fn key(kind: usize, i: usize) -> Vec<u32> {
+        let x = bij64(i as u64, 91);
+        match kind {
+            0 => vec![7, 7, x as u32, (x >> 32) as u32],
+            1 => {
+                let mut v = vec![0xDEAD_BEEFu32; 9];
+                v.push(i as u32);
+                v
+            }
+            _ => {
+                let mut v = vec![];
+                let mut y = i;
+                loop {
+                    v.push((y & 0xFFFF) as u32);
+                    y >>= 16;
+                    if y == 0 {
+                        break;
+                    }
+                }
+                v
+            }
+        }
+    }
+    fn make(s: &Scn) -> Self {
+        let kind = s.kk % 3;
+        KWords { kind, v: (0..s.n).map(|i| Self::key(kind, i)).collect(), arena: Default::default() }
+    }
+    fn src(&self) -> WordsSrc<'_> {
+        WordsSrc::new(&self.v)
+    }
+    fn q(&self, i: usize) -> &[u32] {
+        if i < self.v.len() {
+            self.v[i].as_slice()
+        } else {
+            let b: Box<[u32]> = Self::key(self.kind, i).into_boxed_slice();
+            let p: *const [u32] = &*b;
+            self.arena.borrow_mut().push(b);
+            // SAFETY: the box is owned by the arena, which lives as long as self and never drops or moves its boxes' contents
+            unsafe { &*p }
+        }
+    }
+    fn show(&self, i: usize) -> String {
+        format!("{:?}", self.q(i))
+    }
+    fn kind(&self) -> String {
+        format!("&[u32]:{}", ["index-in-tail", "long-constant-prefix", "base-65536-digits"][self.kind])
+    }
+}
+
 macro_rules! filter_variant {
     ($fname:ident, $W:ty, boxed, $S:ty, $E:ty, $K:ident) => {
         fn $fname(c: &mut Case, s: &Scn) {
@@ -437,6 +495,8 @@ filter_variant!(v_u8_box_noshards64_u64, u8, boxed, S1, FuseLge3NoShards, KU64);
 filter_variant!(v_u16_box_fullsigs_str, u16, boxed, S2, FuseLge3FullSigs, KStr);
 filter_variant!(v_u32_box_noshards64_u64, u32, boxed, S1, FuseLge3NoShards, KU64);
 filter_variant!(v_u64_box_shards_string, u64, boxed, S2, FuseLge3Shards, KString);
+filter_variant!(v_u16_box_shards_words, u16, boxed, S2, FuseLge3Shards, KWords);
+filter_variant!(v_u32_bfv_noshards64_words, u32, bfv, S1, FuseLge3NoShards, KWords);
 
 struct Variant {
     name: &'static str,
@@ -457,6 +517,8 @@ const VARIANTS: &[Variant] = &[
     Variant { name: "u16/Box/sig128/FuseLge3FullSigs/key=str", run: v_u16_box_fullsigs_str, bits: 16, boxed: true, int_keys: false },
     Variant { name: "u32/Box/sig64/FuseLge3NoShards/key=u64", run: v_u32_box_noshards64_u64, bits: 32, boxed: true, int_keys: true },
     Variant { name: "u64/Box/sig128/FuseLge3Shards/key=String", run: v_u64_box_shards_string, bits: 64, boxed: true, int_keys: false },
+    Variant { name: "u16/Box/sig128/FuseLge3Shards/key=&[u32]", run: v_u16_box_shards_words, bits: 16, boxed: true, int_keys: false },
+    Variant { name: "u32/BitFieldVec/sig64/FuseLge3NoShards/key=&[u32]", run: v_u32_bfv_noshards64_words, bits: 32, boxed: false, int_keys: false },
 ];
 
 fn pick<T: Copy>(r: &mut SmallRng, xs: &[T]) -> T {
